@@ -471,6 +471,11 @@ def finish(out: Outcome, props: dict, t0: float, level_note=""):
         tested_not_proved=out.tested_not_proved, notes=out.notes,
         known_findings_reported=sorted(reported.keys()),
         failures=len(out.failures), new_failures=len(new))
+    if not props.get("ok"):
+        # a proof-level evidence file must have discharged == obligations >= 1; when the proof side is broken
+        # this run is NOT proof-level evidence: drop the proof keys (the exploration counts remain) and say so
+        cov.pop("discharged", None)
+        cov["proof_status"] = "BROKEN: " + (props.get("log", "")[-400:] or "property theorems did not check")
     if out.exhaustive is not None:
         cov["exhaustive"] = bool(out.exhaustive)
     cov.update(out.extra)
